@@ -597,6 +597,13 @@ impl<'a> Evaluator<'a> {
                     let unchanged = ARM_INIT.with(|i| match (&*i.borrow(), arm_env.get(&name)) { (Some(init), Some(now)) => init.get(&name) == Some(now), _ => false });
                     if unchanged { orig.clone() } else { arm_env.get(&name).cloned().unwrap_or_else(|| orig.clone()) }
                 }
+                // `x @ <pattern>`: x is the whole of what the pattern matched (a mutable binding cannot coexist with bindings of
+                // the sub-pattern, so the sub-pattern only tests)
+                Pat::Ident(pi) if pi.subpat.is_some() && !is_upper_first(&pi.ident.to_string()) => {
+                    let name = pi.ident.to_string();
+                    let unchanged = ARM_INIT.with(|i| match (&*i.borrow(), arm_env.get(&name)) { (Some(init), Some(now)) => init.get(&name) == Some(now), _ => false });
+                    if unchanged { orig.clone() } else { arm_env.get(&name).cloned().unwrap_or_else(|| orig.clone()) }
+                }
                 Pat::Reference(r) => rebuild(&r.pat, orig, arm_env),
                 Pat::Paren(p) => rebuild(&p.pat, orig, arm_env),
                 Pat::Type(t) => rebuild(&t.pat, orig, arm_env),
